@@ -103,7 +103,18 @@ def run(ctx):
     # ---------------- R8.1
     total_uses = 0
     for fname, exprs, what in CONTRACT:
-        f = prog.find_function(fname)
+        f = prog.try_function(fname)
+        if f is None and fname.endswith("._check_for_key"):
+            # the nested-key search, wherever it lives: the function the column-structure check calls with the key "HED"
+            vcs0 = prog.find_class("SidecarValidator").methods.get("_validate_column_structure")
+            for c0 in (walk_no_nested(vcs0.node) if vcs0 is not None else []):
+                if isinstance(c0, ast.Call) and c0.args and isinstance(c0.args[0], ast.Constant) and c0.args[0].value == "HED":
+                    tg0 = [t for (k, t) in cg.resolve_call(c0, vcs0) if k == "precise"]
+                    if len(tg0) == 1 and len(tg0[0].params()) >= 2:
+                        f = tg0[0]
+                        exprs = [f.params()[-1]]
+        if f is None:
+            raise AnalysisError("anchor function not found: %s" % fname)
         ns, nu = check_type_guards(ctx, "R8.1", f, exprs, what)
         if ns == 0 and not any(isinstance(e, tuple) and e[0] == "values-of-call" for e in exprs):
             # (the values-of-call row is conditional: reading the type-validated view instead needs no guard)
